@@ -215,4 +215,12 @@ PROPS = {
                "Scheduling between the router thread and the registering threads is not controlled (repeated sampling with generated jitter); C07 never stops a router (C17 does).",
                "cases = (routes with kind, message script, prefix length, registering thread, jitter; global or own proxy); non-trivial = >=2 routes registered from different threads with messages queued before registration; distinct = distinct (build, canonical JSON)"),
     ),
+    "C17": dict(
+        jobs=lambda tier: [dict(build=b, params={"cases": "1600" if tier == "quick" else "24000"}, shards=8 if tier == "quick" else 16) for b in ("os", "inproc")],
+        meta=M("exploration",
+               "generated router stop scenarios (shutdown from several threads racing with add_route, or proxy drop, with traffic in flight) judged by logical-clock stamps of callback entries, drop guards and call returns; process-wide panic hook",
+               "Each case creates a fresh RouterProxy with 0..16 live routes (callback and both crossbeam kinds, plus a sentinel callback route) and optional traffic in flight, then stops it by shutdown() from 1..4 threads concurrently with add_route from 0..4 others, or by dropping the proxy; afterwards it sends on the old routes, offers a route again, calls shutdown again and uses an independent second router. No callback entry may be stamped after shutdown returned; at that moment every registered callback's drop guard must have fired; crossbeam consumers must observe disconnection; routes offered after shutdown must be dropped inside add_route without ever being invoked; after a proxy drop all guards must fire (hang rule); no thread may panic; every call must return.",
+               "Races between shutdown and add_route are sampled, not enumerated (the proxy mutex serialises them, which is what the stamps rely on).",
+               "cases = (routes, stop mode and number of shutdown threads, number of concurrent add_route threads, follow-up activity, jitter); non-trivial = >=1 route alive with traffic in flight at the stop, or >=2 threads racing; distinct = distinct (build, canonical JSON)"),
+    ),
 }
